@@ -18,7 +18,7 @@ RULE = (
     "precision. Hypothesis draws the physical parameters (vortex/blob centre within +-2 core radii of the domain centre, core radius "
     "2 (2-D) / 1.5 (3-D) coarse cells +-20%, peak strength, viscosity via the start age, free-stream direction and speed, displacement "
     "of 2-3.5 coarse cells, aspect ratio of the grid) and a resolution family of >= 3 members from {32,48,64,96,128} (2-D) / "
-    "{16,24,32,48} (3-D). Every member is integrated with the simulator's own compute_stable_timestep (last step shortened so that all "
+    "{16,24,32,48} (3-D), each member optionally enlarged by 1..6 cells (odd and FFT-unfriendly sizes; bound of the nominal size). Every member is integrated with the simulator's own compute_stable_timestep (last step shortened so that all "
     "members reach the same final time exactly) and compared with the closed-form solution sampled on position_field: relative discrete "
     "L2 error e(n). Oracles: observed order between consecutive members log(e_a/e_b)/log(n_b/n_a) >= 1 - delta, and e(n) <= B(n), with "
     "delta and B(n) CALIBRATED on the unchanged tree (calibration/c02.json, produced by tools/calibrate_c02.py from >= 200 generated "
@@ -59,6 +59,10 @@ def _strategy(tier, var):
         fam = res[start:start + k] if draw(st.booleans()) else sorted(draw(st.lists(st.sampled_from(res), min_size=3, max_size=len(res), unique=True)))
         if tier == "quick" and dim == 2 and 128 in fam and len(fam) > 3:
             fam = [n for n in fam if n != 128] if draw(st.booleans()) else fam
+        # off-palette resolutions: each member may be a few cells larger than its nominal size (odd extents, sizes whose
+        # doubled length is not a product of small primes, ...); bounds are looked up at the nominal (smaller) size
+        jit = draw(st.lists(st.sampled_from([0, 0, 1, 2, 3, 5, 6]), min_size=len(fam), max_size=len(fam)))
+        fam = [n + j for n, j in zip(fam, jit)]
         coarse = res[0]
         ang = draw(gen.floats(0.0, 6.2831, 32))
         ang2 = draw(gen.floats(-1.2, 1.2, 32))
@@ -171,7 +175,9 @@ def _body(case, ctx):
     fam = case["family"]
     eps = float(np.finfo(gen.np_dtype(case["dtype"])).eps)
     floor = 1e3 * eps
-    B = cal["bounds"][key]
+    B0 = cal["bounds"][key]
+    # calibrated at the nominal sizes; a slightly finer grid is held to the bound of the nominal size just below it
+    B = {str(n): B0[str(max(m for m in (int(q) for q in B0) if m <= n))] for n in fam}
     delta = cal["delta"][key]
     for n in fam:
         if not np.isfinite(errs[n]) or errs[n] > B[str(n)]:
@@ -190,7 +196,8 @@ def _body(case, ctx):
         if errs[y] > errs[x] * 1.02:
             raise Violation(f"{key}: error grows under refinement: e({x}) = {errs[x]:.3e} < e({y}) = {errs[y]:.3e} (family {fam})")
     ctx.note(nontrivial=len(fam) >= 3 and case["disp_cells"] >= 2.0 and (1 - (1 / (1 + case["age_ratio"])) ** (1 if case["kind"] != "passive3d" else 1.5)) >= 0.05,
-             labels=[key, f"family_{len(fam)}", f"finest_{fam[-1]}", f"aspect_{case['aspect']}"])
+             labels=[key, f"family_{len(fam)}", f"finest_{fam[-1] // 16 * 16}plus", f"aspect_{case['aspect']}"]
+             + (["off_palette_resolution"] if any(n not in RES[2] + RES[3] for n in fam) else []))
 
 
 PARTS = [
